@@ -47,6 +47,9 @@ type ospec struct {
 	id     int
 	annot  int
 	bad    string // annotation text when annot == annBad
+	badDeps  []int  // when set: the malformed text is these references with one blank entry inserted
+	badK     int
+	badBlank string
 	deps   []int
 	spec   int
 	sg, sk string
@@ -116,6 +119,28 @@ func (o ospec) clone() ospec {
 	return c
 }
 
+// badText is the text of a malformed depends-on annotation.
+func (o ospec) badText(tab *table) string {
+	if o.badDeps == nil {
+		return o.bad
+	}
+	parts := make([]string, 0, len(o.badDeps)+1)
+	for i, d := range o.badDeps {
+		if i == o.badK {
+			parts = append(parts, o.badBlank)
+		}
+		str, err := dependson.FormatObjMetadata(tab.ids[d])
+		if err != nil {
+			panic("c14: FormatObjMetadata: " + err.Error())
+		}
+		parts = append(parts, str)
+	}
+	if o.badK >= len(o.badDeps) {
+		parts = append(parts, o.badBlank)
+	}
+	return strings.Join(parts, ",")
+}
+
 func (o ospec) build(tab *table) *unstructured.Unstructured {
 	id := tab.ids[o.id]
 	apiVersion := "v1"
@@ -135,7 +160,7 @@ func (o ospec) build(tab *table) *unstructured.Unstructured {
 	}
 	switch o.annot {
 	case annBad:
-		ann[dependson.Annotation] = o.bad
+		ann[dependson.Annotation] = o.badText(tab)
 	case annDeps:
 		parts := make([]string, len(o.deps))
 		for i, d := range o.deps {
@@ -199,7 +224,7 @@ func (o ospec) text(tab *table) string {
 	var extra []string
 	switch o.annot {
 	case annBad:
-		extra = append(extra, fmt.Sprintf("bad-annot %q", o.bad))
+		extra = append(extra, fmt.Sprintf("bad-annot %q", o.badText(tab)))
 	case annDeps:
 		extra = append(extra, fmt.Sprintf("deps %v", o.deps))
 	}
@@ -882,6 +907,20 @@ func genScenario(r *rand.Rand, name string, cyclic bool) scenario {
 			objs[oi].annot, objs[oi].deps, objs[oi].bad = annBad, nil, badAnnots[r.Intn(len(badAnnots))]
 		}
 		tags["bad-annot"] = true
+	}
+	// a well-formed reference list spoilt by a blank entry ("a,,b", "a, ,b", "a,"): the whole
+	// annotation is malformed, although every non-blank entry names an object of the set
+	if r.Intn(10) < 2 {
+		for oi := range objs {
+			if objs[oi].annot == annDeps && len(objs[oi].deps) > 0 && r.Intn(2) == 0 {
+				objs[oi].badDeps = append([]int(nil), objs[oi].deps...)
+				objs[oi].badK = 1 + r.Intn(len(objs[oi].deps))
+				objs[oi].badBlank = []string{"", " ", "\n"}[r.Intn(3)]
+				objs[oi].annot, objs[oi].deps, objs[oi].bad = annBad, nil, "blank-entry"
+				tags["bad-annot-blank-entry"] = true
+				break
+			}
+		}
 	}
 	// mutation annotations that do not parse / that parse to no substitution
 	if pMut > 0 && r.Intn(10) < 3 {
